@@ -83,7 +83,7 @@ func runRace(e *env) {
 	for i := range e.sc.Steps {
 		st := &e.sc.Steps[i]
 		switch st.T {
-		case "s-elect", "s-ops", "s-leave":
+		case "s-join", "s-elect", "s-ops", "s-leave":
 			p := plans[st.Sess]
 			if p == nil {
 				p = &plan{}
@@ -101,13 +101,19 @@ func runRace(e *env) {
 	}
 	sort.Ints(order)
 	fib := e.sc.Cfg.FIBAck
-	for _, sn := range order {
+	c := 6
+	if fib {
+		c = 7
+	}
+	// the first session negotiates before the run goes concurrent; the others connect and negotiate
+	// from their own tasks in half of the runs (session table and parameter checks race with everything else)
+	lateAll := e.sc.Seed%2 == 0
+	for i, sn := range order {
 		p := plans[sn]
-		p.mc = e.net.OpenModify()
-		c := 6
-		if fib {
-			c = 7
+		if i > 0 && (lateAll || (len(p.steps) > 0 && p.steps[0].T == "s-join")) {
+			continue
 		}
+		p.mc = e.net.OpenModify()
 		p.mc.Send(&spb.ModifyRequest{Params: comboParams(c)})
 		p.mc.RecvTimeout(time.Minute)
 	}
@@ -121,8 +127,17 @@ func runRace(e *env) {
 			defer func() { done[slot] = true }()
 			var elec [2]uint64
 			owed := 0
+			if p.mc == nil {
+				p.mc = e.net.OpenModify()
+				p.mc.Send(&spb.ModifyRequest{Params: comboParams(c)})
+				if _, err := p.mc.RecvTimeout(time.Minute); err != nil {
+					return // rejected: another session was connected but had not negotiated yet
+				}
+			}
 			for _, st := range p.steps {
 				switch st.T {
+				case "s-join":
+					continue
 				case "s-elect":
 					elec = *st.Elec
 					p.mc.Send(&spb.ModifyRequest{ElectionId: uint128(elec)})
